@@ -364,6 +364,8 @@ struct World {
     resorted: [bool; 2],
     /// the internal EVPN list was seen out of MAC-mobility order (sticky)
     mm_broken: bool,
+    /// ... and the misplaced path had MAC Mobility behind another type-0x06 community (sticky)
+    mm_pos_broken: bool,
     dead: bool,
 }
 
@@ -385,6 +387,7 @@ impl World {
             last: Default::default(),
             resorted: [false, false],
             mm_broken: false,
+            mm_pos_broken: false,
             dead: false,
         }
     }
@@ -642,6 +645,17 @@ fn witness(w: &World, fam: usize, what: &str, obs: &[u32], note: String) -> Json
     ])
 }
 
+/// Classification aid only: what the packet crate's own `mac_mobility()` reads from this path's
+/// attributes.  Never used for a verdict -- only to name the root cause when it disagrees with what
+/// the generator put there.
+fn code_misreads_mm(p: &MPath) -> bool {
+    let attrs = p.spec.attrs(p.tag);
+    match guard(|| rustybgp_packet::evpn::mac_mobility(&attrs).map(|x| x.0)) {
+        Ok(seq) => seq != p.spec.mm,
+        Err(_) => true,
+    }
+}
+
 /// Signature of a mis-ordering: `better` beats `above` under the reference order
 /// although the code ranked `above` first.
 fn order_sig(w: &World, fam: usize, better: &MPath, above: &MPath) -> String {
@@ -652,6 +666,13 @@ fn order_sig(w: &World, fam: usize, better: &MPath, above: &MPath) -> String {
     // itself never depends on anything below.
     let (hb, ha) = (ref_hops(better.spec.asp), ref_hops(above.spec.asp));
     let (wb, wa) = (hb % 256, ha % 256);
+    // ... or one of the two paths of this very pair has a sequence number the code does not read
+    let pair_unread = fam == EVPN && (code_misreads_mm(better) || code_misreads_mm(above));
+    if fam == EVPN && (w.mm_pos_broken || pair_unread) {
+        // the internal EVPN list has been seen out of MAC-mobility order with the misplaced path carrying
+        // MAC Mobility behind another EVPN-type (0x06) extended community: its sequence number was not read
+        return "C02/order/evpn-mac-mobility-unread-behind-other-type6-community".into();
+    }
     if fam == EVPN && w.resorted[EVPN] && w.mm_broken {
         // restale/restale_llgr re-sorted the EVPN list and it has been seen out of MAC-mobility order since:
         // nothing about the order of this list can be trusted any more
@@ -959,9 +980,18 @@ fn check_state(ctx: &mut Ctx, w: &mut World, fam: usize, changes: &[(usize, Nlri
         if fp.iter().any(|p| p.spec.mm.is_some() && p.spec.mm_dup == 1) {
             ctx.rep.count("state:evpn-mm-community-twice");
         }
-        let mms: Vec<u32> = g.iter().filter_map(|x| x.0).filter_map(|t| w.paths.iter().find(|p| p.fam == fam && p.tag == t)).map(|p| p.spec.mm.unwrap_or(0)).collect();
-        if mms.windows(2).any(|x| x[0] < x[1]) {
+        let mms: Vec<(u32, bool)> = g.iter().filter_map(|x| x.0).filter_map(|t| w.paths.iter().find(|p| p.fam == fam && p.tag == t)).map(|p| (p.spec.mm.unwrap_or(0), p.spec.mm_not_first_type6())).collect();
+        if let Some(x) = mms.windows(2).find(|x| x[0].0 < x[1].0) {
             w.mm_broken = true;
+            if x[1].1 {
+                // the path with the higher sequence number that sits too low has another EVPN-type
+                // community in front of its MAC Mobility community: see whether the code reads it at all
+                let misread = g.iter().filter_map(|x| x.0).filter_map(|t| w.paths.iter().find(|p| p.fam == fam && p.tag == t))
+                    .any(|p| p.spec.mm_not_first_type6() && code_misreads_mm(p));
+                if misread {
+                    w.mm_pos_broken = true;
+                }
+            }
             ctx.rep.count("state:evpn-list-not-in-mac-mobility-order");
         }
     }
@@ -1446,7 +1476,7 @@ fn random_case(rng: &mut Rng, fam: usize, n: usize, long_ok: bool) -> Case {
     Case { fam, peers, paths, unreachable }
 }
 
-fn history_free(ctx: &mut Ctx, case: &Case, evpn_resorted: bool, bests: &[(Vec<usize>, u32, Option<[i64; 9]>, Vec<String>)]) {
+fn history_free(ctx: &mut Ctx, case: &Case, evpn_resorted: bool, evpn_pos: bool, bests: &[(Vec<usize>, u32, Option<[i64; 9]>, Vec<String>)]) {
     let Some(first) = bests.first() else { return };
     for b in bests.iter().skip(1) {
         if b.2 != first.2 {
@@ -1456,7 +1486,9 @@ fn history_free(ctx: &mut Ctx, case: &Case, evpn_resorted: bool, bests: &[(Vec<u
             };
             ctx.rep.count("violated:history-free");
             let over255 = |k: &Option<[i64; 9]>| k.is_some_and(|k| k[S_ASPATH] > 255);
-            let sig = if case.fam == EVPN && evpn_resorted {
+            let sig = if case.fam == EVPN && evpn_pos {
+                "C02/history-free/evpn-mac-mobility-unread-behind-other-type6-community".to_string()
+            } else if case.fam == EVPN && evpn_resorted {
                 "C02/history-free/evpn-mac-mobility-lost-after-restale".to_string()
             } else if step == "as-path" && (over255(&first.2) || over255(&b.2)) {
                 // a hop count that wraps to the other one's value ties with it, so arrival order decides
@@ -1507,19 +1539,21 @@ fn run_perms(ctx: &mut Ctx, rng: &mut Rng, sets: u64) {
         ctx.rep.count(if n <= 5 { "perm:sets-all-orders" } else { "perm:sets-sampled-orders" });
         let mut bests = Vec::new();
         let mut evpn_resorted = false;
+        let mut evpn_pos = false;
         for o in orders {
             let early = rng.below(1 << case.peers.len()) as u32;
             ctx.rep.count("perm:orders");
             match run_case(ctx, &case, &o, early, false) {
                 Some((b, w)) => {
                     evpn_resorted |= w.resorted[EVPN] && w.mm_broken;
+                    evpn_pos |= w.mm_pos_broken;
                     bests.push((o, early, b, w.log))
                 }
                 None => break,
             }
         }
         ctx.rep.eval();
-        history_free(ctx, &case, evpn_resorted, &bests);
+        history_free(ctx, &case, evpn_resorted, evpn_pos, &bests);
     }
 }
 
